@@ -32,7 +32,7 @@ ASSUMPTIONS = [
 FLOORS = {'parses': 3000, 'delimiters_in_strings': 14,
           'parses_with_defined_names': 500,
           'parses_on_reused_parser': 3000, 'rejected_formulas_fed': 50,
-          'long_formula_parses': 12}
+          'long_formula_parses': 12, 'tokenize_range_calls': 20}
 ANCHOR_FUNCS = {
     'xlcalculator/parser.py': ['FormulaParser.parse',
                                'FormulaParser.shunting_yard',
@@ -374,6 +374,25 @@ class Runner:
                      kf=classify(tags, got), monitor='parse-tree',
                      group='tree:' + kind + ':'.join(sorted(tags)))
             return
+        # somebody else in the process tokenizes with tokenize_range=True (a
+        # documented option): no influence on ordinary parses that follow
+        if rng.random() < 0.02:
+            subject.outcome_of_raw(lambda: parser.FormulaParser().tokenize(
+                '=SUM(A1:B2)+C3', tokenize_range=True))
+            ctx.event('tokenize_range_calls')
+            got_t = subject.outcome_of_raw(
+                lambda: parser.FormulaParser().parse(text, {}))
+            have_t = fold_pct(canon_lib(got_t[1])) if got_t[0] == 'value' \
+                else None
+            if have_t is None or not same_tree(have_t, want):
+                ctx.fail(f'after a tokenize(..., tokenize_range=True) call in '
+                         f'the same process, parse({text!r}) gives '
+                         f'{repr(have_t)[:300] if have_t else got_t[1]}',
+                         {'formula': text, 'expected_tree': want,
+                          'observed': repr(have_t)[:600] if have_t
+                          else got_t[1]},
+                         monitor='parse-tree', group='after-tokenize-range')
+                return
         # ONE parser object used for many formulas, some of them rejected
         # (an unclosed parenthesis raises): what it rejected must not show in
         # what it parses next
@@ -552,6 +571,39 @@ def run(ctx):
                          {'formula': text[:200] + ' ...', 'length': len(text),
                           'kind': kind, 'count': count},
                          monitor='parse-tree', group='long-formula:' + kind)
+
+    # ---- one workbook with formulas that differ only in the blanks INSIDE a
+    # string literal or a quoted sheet name (layout between tokens is free, the
+    # characters of a literal are not) -----------------------------------------
+    if sh in (3, 4) or thorough:
+        cells = {
+            "My Sheet!A1": 5, "My  Sheet!A1": 7, "Sheet1!A1": 1,
+            "Sheet1!B1": '=LEN("a b")', "Sheet1!B2": '=LEN("a  b")',
+            "Sheet1!B3": '=LEN("a\tb")', "Sheet1!B4": '=LEN("a\nb")',
+            "Sheet1!B5": '="yes "&"|"', "Sheet1!B6": '="yes   "&"|"',
+            "Sheet1!B7": "='My Sheet'!A1+0", "Sheet1!B8": "='My  Sheet'!A1+0",
+            "Sheet1!B9": '=LEN( "a b" )', "Sheet1!B10": '=LEN("a   b")',
+        }
+        expect = {'B1': ('num', 3.0), 'B2': ('num', 4.0), 'B3': ('num', 3.0),
+                  'B4': ('num', 3.0), 'B5': ('text', 'yes |'),
+                  'B6': ('text', 'yes   |'), 'B7': ('num', 5.0),
+                  'B8': ('num', 7.0), 'B9': ('num', 3.0), 'B10': ('num', 5.0)}
+        from xlcalculator import Evaluator
+        try:
+            ev = Evaluator(subject.compile_dict(cells))
+            outs = {a: subject.outcome_of(lambda a=a: ev.evaluate(
+                'Sheet1!' + a)) for a in expect}
+        except Exception as e:  # noqa
+            outs = {a: ('raised', repr(e)[:200]) for a in expect}
+        for a, want in expect.items():
+            ctx.event('near_identical_formula_cases')
+            ctx.case(('near-identical', a))
+            if outs[a] != ('value', want):
+                ctx.fail(f'workbook with formulas differing only inside '
+                         f'literals: {cells["Sheet1!" + a]!r} -> {outs[a]}, '
+                         f'expected {want}',
+                         {'cells': cells, 'cell': a, 'observed': outs[a]},
+                         monitor='parse-tree', group='near-identical')
 
     # ---- exhaustive delimiter block ----------------------------------------
     contexts = [
